@@ -886,6 +886,9 @@ def replay_case(ctx, c):
 
 
 def replay_witness(ctx, entry):
+    if isinstance(entry["witness"], dict) and "fn" in entry["witness"]:
+        from fcv import core
+        return core.run_named_witness(entry)
     probs = replay_case(ctx, entry["witness"])
     return bool(probs), probs
 
